@@ -17,6 +17,7 @@ JPARSER = "utype/specs/json_schema/parser.py"
 JCONST = "utype/specs/json_schema/constant.py"
 ENC = "utype/utils/encode.py"
 EXC = "utype/utils/exceptions.py"
+FUNCTIONAL = "utype/utils/functional.py"
 
 
 def B(name, prop, rule, *edits, **kw):
@@ -1323,6 +1324,116 @@ VARIANTS = [
         if self.msg:""", """        label = repr(self.item)
         msg = f"parse item: [{label}] exceeded"
         if self.msg:""")),
+    # ------------------------------------------------------------------ benign: refactors of the core parse code (older rules)
+    G("benign handle_error: nested ifs instead of one condition",
+      (OPT, """        self.errors.append(e)
+        if force_raise or self.force_error or not self.options.collect_errors:
+            raise e
+""", """        self.errors.append(e)
+        if force_raise or self.force_error:
+            raise e
+        if not self.options.collect_errors:
+            raise e
+""")),
+    G("benign max_length: negated comparison",
+      (RULE, """            v = str(value)
+        if len(v) > m:
+            raise ValueError
+        return value""", """            v = str(value)
+        if not len(v) <= m:
+            raise ValueError
+        return value""")),
+    G("benign _parse_map_args: result and loop variables renamed",
+      (RULE, """        result = {}
+        if not cls.__args__:
+            return value
+
+        key_type = cls.__args__[0]""", """        parsed_map = {}
+        if not cls.__args__:
+            return value
+
+        key_type = cls.__args__[0]"""),
+      (RULE, """            else:
+                val = _val
+            result[key] = val
+        return result
+
+    @classmethod
+    def _parse_type_arg""", """            else:
+                val = _val
+            parsed_map[key] = val
+        return parsed_map
+
+    @classmethod
+    def _parse_type_arg""")),
+    G("benign depth accounting: branches swapped",
+      (OPT, """        if route is not None:
+            self.routes.append(route)
+        else:
+            self.depth += 1
+""", """        if route is None:
+            self.depth += 1
+        else:
+            self.routes.append(route)
+""")),
+    G("benign parse_output_value: error option computed before the try",
+      (FIELD, """            # todo: apply and distinct input field / output field
+            error_option = (
+                self.output_field.on_error if self.output_field else None
+            ) or context.options.invalid_values
+            if error_option == context.options.EXCLUDE:""", """            # todo: apply and distinct input field / output field
+            on_error = self.output_field.on_error if self.output_field else None
+            error_option = on_error or context.options.invalid_values
+            if error_option == context.options.EXCLUDE:""")),
+    G("benign copy_value: dict case first",
+      (FUNCTIONAL, """    if multi(data):
+        return type(data)([copy_value(d) for d in data])
+    elif isinstance(data, dict):
+        return {k: copy_value(v) for k, v in data.items()}
+    return data""", """    if isinstance(data, dict):
+        return {k: copy_value(v) for k, v in data.items()}
+    if multi(data):
+        return type(data)([copy_value(d) for d in data])
+    return data""")),
+    G("benign parse_addition: options hoisted, early returns kept",
+      (BASE, """        if key in self.exclude_vars:
+            # excluded vars cannot be carry in addition even if allowed
+            return unprovided
+        if context.options.addition is False:
+            context.handle_error(exc.ExceedError(item=key, value=value))
+            return unprovided
+        if not context.options.addition:
+            # None
+            return unprovided""", """        opts = context.options
+        if key in self.exclude_vars:
+            # excluded vars cannot be carry in addition even if allowed
+            return unprovided
+        if opts.addition is False:
+            context.handle_error(exc.ExceedError(item=key, value=value))
+            return unprovided
+        if not opts.addition:
+            # None
+            return unprovided""")),
+    G("benign data-first: provided map renamed",
+      (BASE, "        provided = {}   # the raw input taken for each field, to compare aliases like with like", "        raw_taken = {}   # the raw input taken for each field, to compare aliases like with like"),
+      (BASE, """                if name in provided:  # or (excluded_keys and name in excluded_keys):
+                    if provided[name] != value:""", """                if name in raw_taken:  # or (excluded_keys and name in excluded_keys):
+                    if raw_taken[name] != value:"""),
+      (BASE, "            provided[name] = value\n", "            raw_taken[name] = value\n"),
+      (BASE, "            if name in result or name in provided:", "            if name in result or name in raw_taken:")),
+    G("benign to_integer: no_data_loss checks merged",
+      (TRANS, """        if self.no_data_loss:
+            if not data.is_finite():
+                raise TypeError
+            if data.as_tuple().exponent:
+                raise TypeError
+
+        return t(data)""", """        if self.no_data_loss and (not data.is_finite() or data.as_tuple().exponent):
+            raise TypeError
+
+        return t(data)""")),
+    G("benign Schema.copy: explicit dict() of the storage",
+      (SCHEMA, "        obj.__dict__ = dict(self.__dict__)", "        obj.__dict__ = {**self.__dict__}")),
     G("benign comment and blank lines",
       (RULE, "        context.raise_error()  # raise error if collected\n        return value", "        # flush\n\n        context.raise_error()\n        return value")),
 ]
